@@ -18,6 +18,9 @@ func (c *Core) VerifAlgorithm() Algorithm  { return c.routing }
 func (c *Core) VerifRetryTick()            { c.checkPendingBundles() }
 func (c *Core) VerifIdKeeper() *IdKeeper   { return &c.idKeeper }
 
+// VerifCloseAgents shuts the agent manager down (Core.Close leaves it running).
+func (c *Core) VerifCloseAgents() { _ = c.agentManager.Close() }
+
 // VerifTakeCron removes every registered cron job and returns the tasks, so that the harness decides when they run.
 func (c *Core) VerifTakeCron() map[string]func() {
 	c.cron.mutex.Lock()
